@@ -7,6 +7,9 @@ import TfelVerif.C38.Model
 
 namespace TfelVerif.C38
 
+set_option linter.unusedSectionVars false
+set_option linter.unusedSimpArgs false
+
 variable {α : Type} [LT α] [DecidableRel (fun a b : α => a < b)]
 
 theorem run_ret_some (es : List Eff) (s : St) (r : Ret) (h : s.ret = some r) : run es s = s := by
@@ -119,18 +122,14 @@ theorem runChecks_std_none (out : Val α) :
     ∀ (vs : List (Var α)) (args : List (Val α)) (r : Nat) (s : St),
       runChecks .none args out (stdChecks r vs) s = s
   | [], _, _, _ => by simp [stdChecks, runChecks]
-  | v :: vs, args, r, s => by
-    simp only [stdChecks]
-    rw [runChecks_append]
-    have : runChecks Policy.none args out
-        (match v.std with
-          | some b => [stdCheck r b]
-          | none => []) s = s := by
-      cases v.std with
-      | none => rfl
-      | some b =>
-        simp only [runChecks, runCheck, stdCheck]
-        cases s.ret <;> simp
+  | ⟨_, none⟩ :: vs, args, r, s => by
+    simp only [stdChecks, List.nil_append]
+    exact runChecks_std_none out vs args (r + 1) s
+  | ⟨_, some b⟩ :: vs, args, r, s => by
+    simp only [stdChecks, List.singleton_append, runChecks]
+    have : runCheck Policy.none (valueOf args out (stdCheck r b).rank) (stdCheck r b) s = s := by
+      simp only [runCheck]
+      cases s.ret <;> simp [stdCheck]
     rw [this]
     exact runChecks_std_none out vs args (r + 1) s
 
@@ -145,31 +144,35 @@ theorem runChecks_std_warning (out : Val α) :
     refine ⟨0, ?_⟩
     simp only [stdChecks, runChecks, lastStd, Nat.add_zero]
     cases s; simp_all
-  | v :: vs, [], pre, w, s, _, hl, _, _ => by simp at hl
-  | v :: vs, x :: xs, pre, w, s, hs, hl, hb, hst => by
+  | _ :: vs, [], pre, w, s, _, hl, _, _ => by simp at hl
+  | ⟨ph, none⟩ :: vs, x :: xs, pre, w, s, hs, hl, hb, hst => by
     have hl' : vs.length = xs.length := by simpa using hl
     have ih := runChecks_std_warning out vs xs (pre ++ [x])
     have e1 : (pre ++ [x]) ++ xs = pre ++ x :: xs := by simp
     have e2 : (pre ++ [x]).length + 1 = pre.length + 1 + 1 := by simp
     rw [e1, e2] at ih
-    simp only [stdChecks, lastStd]
-    cases hp : v.std with
-    | none =>
-      simp only [List.nil_append]
-      exact ih w s hs hl' hb hst
-    | some b =>
-      simp only [List.singleton_append, runChecks, runCheck, hs, stdCheck, valueOf_append, bndViolated]
-      by_cases hv : violated b.kind b.lo b.hi x = true
-      · simp only [hv, if_true, Bool.false_eq_true, if_false]
-        rw [run_warnEffs _ s hs]
-        obtain ⟨k, hk⟩ := ih (pre.length + 1)
-          { s with status := 1, bounds := ((pre.length + 1 : Nat) : Int), reports := s.reports + 1 }
-          hs hl' rfl (by simp)
-        refine ⟨k + 1, ?_⟩
-        rw [hk]
-        simp [Nat.add_assoc, Nat.add_comm 1 k]
-      · simp only [hv, Bool.false_eq_true, if_false]
-        exact ih w s hs hl' hb hst
+    simp only [stdChecks, lastStd, List.nil_append]
+    exact ih w s hs hl' hb hst
+  | ⟨ph, some b⟩ :: vs, x :: xs, pre, w, s, hs, hl, hb, hst => by
+    have hl' : vs.length = xs.length := by simpa using hl
+    have ih := runChecks_std_warning out vs xs (pre ++ [x])
+    have e1 : (pre ++ [x]) ++ xs = pre ++ x :: xs := by simp
+    have e2 : (pre ++ [x]).length + 1 = pre.length + 1 + 1 := by simp
+    rw [e1, e2] at ih
+    simp only [stdChecks, lastStd, List.singleton_append, runChecks, runCheck, hs, stdCheck,
+      valueOf_append, bndViolated]
+    by_cases hv : violated b.kind b.lo b.hi x = true
+    · simp only [hv, ↓reduceIte, Bool.false_eq_true]
+      rw [run_warnEffs _ s hs]
+      obtain ⟨k, hk⟩ := ih (pre.length + 1)
+        { s with status := 1, bounds := ((pre.length + 1 : Nat) : Int), reports := s.reports + 1 }
+        hs hl' rfl (by simp)
+      refine ⟨1 + k, ?_⟩
+      rw [hk]
+      simp only [Nat.add_assoc, hs]
+    · simp only [hv, ↓reduceIte, Bool.false_eq_true]
+      obtain ⟨k, hk⟩ := ih w s hs hl' hb hst
+      exact ⟨k, by rw [hk]; simp only [hs]⟩
 
 /-- `_checkBounds`: the tests of a list of inputs -/
 theorem execC_phys :
